@@ -356,7 +356,14 @@ fn build_invocation_evaluator(scope: &Scope, invocation: &Invocation) -> Result<
   Ok(Box::new(move |scope: &Scope| {
     let mut params_ctx = FeelContext::default();
     bindings.iter().for_each(|(name, evaluator)| params_ctx.set_entry(name, evaluator(scope)));
-    if let Value::FunctionDefinition(_, body, result_type) = function_evaluator(scope) {
+    if let Value::FunctionDefinition(parameters, body, result_type) = function_evaluator(scope) {
+      // an argument is converted to the type of the parameter it is bound to, like in a textual invocation
+      for (name, parameter_type) in &parameters {
+        if let Some(value) = params_ctx.get_entry(name) {
+          let coerced = parameter_type.coerced(value);
+          params_ctx.set_entry(name, coerced);
+        }
+      }
       scope.push(params_ctx);
       let value = body.evaluate(scope);
       scope.pop();
